@@ -310,6 +310,18 @@ func (c *Ctx) ErrFlow(include, armed func(*ssa.Function) bool) []core.Ob {
 				if !used || errv == nil {
 					continue
 				}
+				// ---- E4: a value that came with an error is not acted on before the error was looked at:
+				// a branch on a sibling result of a module callee lies behind the err == nil edge
+				if g := cc.StaticCallee(); g != nil && c.P.InModule(g) && call.Common().Signature().Results().Len() > 1 {
+					if why := branchBeforeErrTest(call, idx, errv); why != "" {
+						obs = append(obs, core.Ob{Rule: "R-ERRFLOW", Key: fmt.Sprintf("%s#%s@%d:value-before-error", fname, short, k), Pos: c.P.Pos(call.Pos()), Func: fname, Armed: armed(fn), Status: core.Violated,
+							Want: "a result of " + short + " decides a branch only where its error has been found nil",
+							Got:  why})
+					} else {
+						obs = append(obs, core.Ob{Rule: "R-ERRFLOW", Key: fmt.Sprintf("%s#%s@%d:value-before-error", fname, short, k), Pos: c.P.Pos(call.Pos()), Func: fname, Armed: armed(fn), Status: core.OK,
+							Want: "a result of " + short + " decides a branch only where its error has been found nil"})
+					}
+				}
 				// ---- E3: a short read is not forgiven: the error of io.ReadFull / io.ReadAtLeast / io.CopyN
 				// (io.EOF there means "nothing arrived although something was expected") is not compared
 				// with io.EOF on a path that then returns a nil error
@@ -600,4 +612,82 @@ func eofEdge(r ssa.Instruction, errv ssa.Value) *ssa.BasicBlock {
 		}
 	}
 	return nil
+}
+
+// branchBeforeErrTest: some branch whose condition is computed from a non-error result of the call
+// is reachable without the call's error having been found nil ("" if none, or if the error is never tested).
+func branchBeforeErrTest(call *ssa.Call, errIdx int, errv ssa.Value) string {
+	if errv == nil || errv.Referrers() == nil || call.Referrers() == nil {
+		return ""
+	}
+	// the err == nil edges
+	var okEdges []*ssa.BasicBlock
+	for _, r := range *errv.Referrers() {
+		cmp, ok := r.(*ssa.BinOp)
+		if !ok || (cmp.Op != token.NEQ && cmp.Op != token.EQL) || !(isNilConst(cmp.X) || isNilConst(cmp.Y)) || cmp.Referrers() == nil {
+			continue
+		}
+		for _, u := range *cmp.Referrers() {
+			if iff, ok := u.(*ssa.If); ok {
+				if cmp.Op == token.NEQ {
+					okEdges = append(okEdges, iff.Block().Succs[1])
+				} else {
+					okEdges = append(okEdges, iff.Block().Succs[0])
+				}
+			}
+		}
+	}
+	if len(okEdges) == 0 {
+		return ""
+	}
+	behindOK := func(b *ssa.BasicBlock) bool {
+		for _, e := range okEdges {
+			if e == b || e.Dominates(b) {
+				return true
+			}
+		}
+		return false
+	}
+	for _, r := range *call.Referrers() {
+		ex, ok := r.(*ssa.Extract)
+		if !ok || ex.Index == errIdx || ex.Referrers() == nil {
+			continue
+		}
+		var conds []ssa.Value
+		for _, u := range *ex.Referrers() {
+			switch x := u.(type) {
+			case *ssa.BinOp:
+				conds = append(conds, x)
+			case *ssa.Convert:
+				if x.Referrers() != nil {
+					for _, w := range *x.Referrers() {
+						if bo, ok := w.(*ssa.BinOp); ok {
+							conds = append(conds, bo)
+						}
+					}
+				}
+			}
+		}
+		for _, cv := range conds {
+			bo := cv.(*ssa.BinOp)
+			switch bo.Op {
+			case token.EQL, token.NEQ, token.LSS, token.LEQ, token.GTR, token.GEQ:
+			default:
+				continue
+			}
+			if bo.Referrers() == nil {
+				continue
+			}
+			for _, w := range *bo.Referrers() {
+				iff, ok := w.(*ssa.If)
+				if !ok {
+					continue
+				}
+				if !behindOK(iff.Block()) {
+					return "a branch on result " + ex.Name() + " is taken before the error of the same call has been tested: on failure the zero value decides (e.g. reads as the end marker)"
+				}
+			}
+		}
+	}
+	return ""
 }
